@@ -145,6 +145,9 @@ pub assume_specification<T: Copy>[Option::<&T>::copied](o: Option<&T>) -> (r: Op
 pub assume_specification<T>[<[T]>::reverse](s: &mut [T])
     ensures final(s)@ == old(s)@.reverse();
 
+pub assume_specification<T>[core::mem::replace::<T>](dest: &mut T, src: T) -> (r: T)
+    ensures *final(dest) == src, r == *old(dest);
+
 // A destination that is both Write and Seek has ONE cursor, ONE content, one failure counter.
 pub uninterp spec fn ws_linked<T: Write + Seek>(t: &T) -> bool;
 pub broadcast axiom fn ax_ws_pos<T: Write + Seek>(t: &T)
